@@ -1,0 +1,24 @@
+//go:build verif
+
+package nebula
+
+import "time"
+
+// Thin exported wrappers for the verification harness (engine `wheel`). No behaviour.
+
+// VerifTimerWheelFindWheel exposes findWheel (the slot Add would use for timeout).
+func VerifTimerWheelFindWheel[T any](tw *TimerWheel[T], timeout time.Duration) int {
+	return tw.findWheel(timeout)
+}
+
+// VerifTimerWheelState reads the unexported position of the wheel: current tick, wheel length, last tick
+// time (ok=false before the first Advance), number of items on the expired list and in the item cache.
+func VerifTimerWheelState[T any](tw *TimerWheel[T]) (current, wheelLen int, lastTick time.Time, ok bool, expired, cached int) {
+	if tw.lastTick != nil {
+		lastTick, ok = *tw.lastTick, true
+	}
+	for ti := tw.expired.Head; ti != nil; ti = ti.Next {
+		expired++
+	}
+	return tw.current, tw.wheelLen, lastTick, ok, expired, tw.itemsCached
+}
